@@ -65,6 +65,7 @@ inductive UB
   | rcOverflow
   | lenOverflow       -- `set_len` beyond what the length field can hold
   | badStatic         -- static id unknown (script error, not reachable from the API)
+  | arith             -- `usize` overflow / underflow / division by zero in the crate's own arithmetic
   deriving DecidableEq, Repr, Inhabited
 
 /-! ## Heap -/
